@@ -634,6 +634,26 @@ func Run(j *job.Job, s *job.Sink) {
 			r.Shuffle(len(subTexts), func(a, b int) { subTexts[a], subTexts[b] = subTexts[b], subTexts[a] })
 			s.Count("cases_with_deviations_in_a_submodule", 1)
 		}
+		// Half of those pin the submodules by revision-date and load a newer revision of one of
+		// them beside them, which nothing includes: its deviation is not in force.
+		var rogue [2]string
+		rogueFirst := false
+		if len(subTexts) > 0 && dropDefaultCase != "/b/dch/dc2" && r.Intn(2) == 0 {
+			pin := func(t string) string {
+				t = strings.ReplaceAll(t, "include ds1;", "include ds1 { revision-date 2020-01-01; }")
+				return strings.ReplaceAll(t, "include ds2;", "include ds2 { revision-date 2020-01-01; }")
+			}
+			for i := range subTexts {
+				subTexts[i][1] = strings.Replace(pin(subTexts[i][1]), "\n", " revision 2020-01-01;\n", 1)
+			}
+			d0 := pin(texts[0].String())
+			texts[0].Reset()
+			texts[0].WriteString(d0)
+			name := strings.TrimSuffix(subTexts[r.Intn(len(subTexts))][0], ".yang")
+			rogue = [2]string{name + "@2031-01-01.yang", fmt.Sprintf("submodule %s { yang-version 1.1; belongs-to d { prefix d; } import b { prefix bb; } revision 2031-01-01;\n  deviation /bb:dch/bb:dc2/bb:dl2 { deviate replace { type uint8; } }\n}\n", name)}
+			rogueFirst = r.Intn(2) == 0
+			s.Count("cases_with_a_newer_submodule_revision_that_nothing_includes", 1)
+		}
 		allDev = func() string {
 			out := ""
 			for mi := range texts {
@@ -642,7 +662,7 @@ func Run(j *job.Job, s *job.Sink) {
 			for _, st := range subTexts {
 				out += st[1]
 			}
-			return out
+			return out + rogue[1]
 		}
 		caseDesc = map[string]string{"b.yang": base.String(), "a.yang": augText.String(), "d.yang+e.yang": allDev(), "d@2019-01-01.yang": olderRev, "ignore_not_supported_option": fmt.Sprint(ignoreNS)}
 		for _, blk := range strings.Split(allDev(), "deviation ")[1:] {
@@ -666,7 +686,9 @@ func Run(j *job.Job, s *job.Sink) {
 		// Half of the cases that keep deviations in submodules load from files: the modules are
 		// read by name, the submodules are fetched by the processing run itself when it links
 		// the include statements. Their deviations count like all others.
-		fromDisk := len(subTexts) > 0 && r.Intn(2) == 0
+		// (Not with the unincluded newer revision: a pinned include whose revision is not
+		// loaded yet binds to whatever revision is, which is the open C18 finding.)
+		fromDisk := len(subTexts) > 0 && r.Intn(2) == 0 && rogue[0] == ""
 		if fromDisk {
 			s.Count("cases_loaded_from_files_with_fetched_submodules", 1)
 		}
@@ -688,8 +710,18 @@ func Run(j *job.Job, s *job.Sink) {
 					os.WriteFile(filepath.Join(dir, st[0]), []byte(st[1]), 0o644)
 				}
 				ms.AddPath(dir)
+				if rogue[0] != "" && rogueFirst {
+					if err := ms.Parse(rogue[1], rogue[0]); err != nil {
+						return ms, []error{err}
+					}
+				}
 				for _, f := range files {
 					if err := ms.Read(filepath.Join(dir, f[0])); err != nil {
+						return ms, []error{err}
+					}
+				}
+				if rogue[0] != "" && !rogueFirst {
+					if err := ms.Parse(rogue[1], rogue[0]); err != nil {
 						return ms, []error{err}
 					}
 				}
@@ -717,8 +749,18 @@ func Run(j *job.Job, s *job.Sink) {
 						return ms, []error{err}
 					}
 				}
+				if rogue[0] != "" && rogueFirst {
+					if err := ms.Parse(rogue[1], rogue[0]); err != nil {
+						return ms, []error{err}
+					}
+				}
 				for _, st := range subTexts {
 					if err := ms.Parse(st[1], st[0]); err != nil {
+						return ms, []error{err}
+					}
+				}
+				if rogue[0] != "" && !rogueFirst {
+					if err := ms.Parse(rogue[1], rogue[0]); err != nil {
 						return ms, []error{err}
 					}
 				}
